@@ -44,14 +44,15 @@ def datasets(rng, shape, nds, fail, nan=False, plain_dims=False,
     if not shape:
         base, err = np.float64(base), np.float64(err)
     names = rng.sample(NAMES, nds + 1)
-    fortran = len(shape) >= 2 and rng.random() < 0.15
+    fortran = len(shape) >= 2 and rng.random() < 0.3
     if fortran:
         # the same numbers in another memory layout
         base, err = np.asfortranarray(base), np.asfortranarray(err)
     # single precision data (all the numbers used are exactly representable)
     f32 = rng.random() < 0.12
     if f32:
-        base, err = np.float32(base), np.float32(err)
+        base, err = np.asarray(base).astype(np.float32)[()], \
+            np.asarray(err).astype(np.float32)[()]
     ref = Dataset(base, err, bins=bins, name=names[0], what='flux')
     dsets, masks = [], []
     for k in range(nds):
@@ -81,7 +82,8 @@ def datasets(rng, shape, nds, fail, nan=False, plain_dims=False,
         if not shape:
             val, derr = np.float64(val), np.float64(derr)
         if f32:
-            val, derr = np.float32(val), np.float32(derr)
+            val, derr = np.asarray(val).astype(np.float32)[()], \
+                np.asarray(derr).astype(np.float32)[()]
         dsets.append(Dataset(val, derr, bins=(
             OrderedDict((key, arr.copy()) for key, arr in bins.items())
             if decreasing else bins), name=names[k + 1], what='flux'))
